@@ -107,7 +107,7 @@ class Contract:
                  locals=None, modifies=(), spec_funcs=None, ufuns=None, types=None, raises=None, ghost_at=None,
                  assert_at=None, lifted_asserts=(), alias_ok=(), pure=False, fragment=None, notes=None, module_env=None,
                  decreases=None, axioms=(), trusted=False, post_hints=(), exc_ensures=None, assume_at=None, unroll=None,
-                 variant="", outputs=None, call_ghost=None, defaults=None, defs=None):
+                 variant="", outputs=None, call_ghost=None, defaults=None, defs=None, ghost_reads=None):
         self.file, self.func = file, func
         self.params = dict(params)
         self.returns = returns
@@ -140,6 +140,7 @@ class Contract:
         self.outputs = list(outputs or [])
         self.call_ghost = dict(call_ghost or {})
         self.defaults = dict(defaults or {})
+        self.ghost_reads = list(ghost_reads or [])
         self.defs = dict(defs or {})  # name -> (argtypes, rettype, lambda source): function symbol with a definitional axiom
 
     @property
@@ -346,6 +347,12 @@ class Engine:
     def same_type(self, a, b, st, node):
         if a.ty == b.ty:
             return a, b
+        if isinstance(a.ty, NoneT) and not isinstance(b.ty, (NoneT, OptT)):
+            oty = OptT(b.ty)
+            return Val(oty.none(), oty), Val(oty.some(b.t), oty)
+        if isinstance(b.ty, NoneT) and not isinstance(a.ty, (NoneT, OptT)):
+            oty = OptT(a.ty)
+            return Val(oty.some(a.t), oty), Val(oty.none(), oty)
         try:
             return a, self.coerce(b, a.ty, st, node)
         except Unsupported:
@@ -372,6 +379,8 @@ class Engine:
             return IntV(v)
         if isinstance(v, str):
             return StrV(v)
+        if isinstance(v, float):
+            return Val(z3.RealVal(repr(v)), REAL)
         raise Unsupported("constant %r" % (v,))
 
     def ev_Name(self, n, st):
@@ -940,6 +949,9 @@ class Engine:
                     raise Unsupported("call of %s: missing argument %s at line %s" % (con.func, name, n.lineno))
         for name in names:
             argvals[name] = self.coerce(argvals[name], con.params[name], st, n, "argument " + name)
+        for g in con.ghost_reads:
+            if g in st.env:
+                argvals[g] = st.env[g]
         # ghost parameters of the callee: instantiated by the caller's contract (call_ghost), else by a same-named ghost
         for g, gty in con.ghost.items():
             spec = self.c.call_ghost.get(con.func, {}).get(g)
@@ -1216,7 +1228,11 @@ class Engine:
     def st_Expr(self, s, st):
         v = s.value
         if isinstance(v, ast.Call):
-            self.ev(v, st)
+            from . import lib
+            try:
+                self.ev(v, st)
+            except lib.RaiseNow as r:
+                return [(st, "raise", r.exc)]
             return [(st, "next", None)]
         self.ev(v, st)
         return [(st, "next", None)]
